@@ -338,7 +338,9 @@ package join
   at call(Refilter) assert [refilters-its-own-clone-with-that-filter] (and (= $recv {dst}) (= $0 lastFilter) listOK)
   ghost refiltered : Bool := false
   at call(Refilter) set refiltered := true
-  exit [refilters-unless-the-source-cache-could-not-be-listed] (or refiltered (not listOK))
+  ghost listed : Bool := false
+  at call(List) set listed := true
+  exit [always-lists-the-source-and-refilters-unless-the-listing-failed] (and listed (or refiltered (not listOK)))
   at go() assert [opt:callbacks-refilter-serially-on-the-monitor-goroutine] false
 @*/
 /*@ func join.ServicePodsWith$2
@@ -413,7 +415,9 @@ package join
   at call(Refilter) assert [refilters-its-own-clone-with-that-filter] (and (= $recv {dst}) (= $0 lastFilter) listOK)
   ghost refiltered : Bool := false
   at call(Refilter) set refiltered := true
-  exit [refilters-unless-the-source-cache-could-not-be-listed] (or refiltered (not listOK))
+  ghost listed : Bool := false
+  at call(List) set listed := true
+  exit [always-lists-the-source-and-refilters-unless-the-listing-failed] (and listed (or refiltered (not listOK)))
   at go() assert [opt:callbacks-refilter-serially-on-the-monitor-goroutine] false
 @*/
 /*@ func join.RCPodsWith$2
@@ -488,7 +492,9 @@ package join
   at call(Refilter) assert [refilters-its-own-clone-with-that-filter] (and (= $recv {dst}) (= $0 lastFilter) listOK)
   ghost refiltered : Bool := false
   at call(Refilter) set refiltered := true
-  exit [refilters-unless-the-source-cache-could-not-be-listed] (or refiltered (not listOK))
+  ghost listed : Bool := false
+  at call(List) set listed := true
+  exit [always-lists-the-source-and-refilters-unless-the-listing-failed] (and listed (or refiltered (not listOK)))
   at go() assert [opt:callbacks-refilter-serially-on-the-monitor-goroutine] false
 @*/
 /*@ func join.RSPodsWith$2
@@ -563,7 +569,9 @@ package join
   at call(Refilter) assert [refilters-its-own-clone-with-that-filter] (and (= $recv {dst}) (= $0 lastFilter) listOK)
   ghost refiltered : Bool := false
   at call(Refilter) set refiltered := true
-  exit [refilters-unless-the-source-cache-could-not-be-listed] (or refiltered (not listOK))
+  ghost listed : Bool := false
+  at call(List) set listed := true
+  exit [always-lists-the-source-and-refilters-unless-the-listing-failed] (and listed (or refiltered (not listOK)))
   at go() assert [opt:callbacks-refilter-serially-on-the-monitor-goroutine] false
 @*/
 /*@ func join.DeploymentPodsWith$2
@@ -638,7 +646,9 @@ package join
   at call(Refilter) assert [refilters-its-own-clone-with-that-filter] (and (= $recv {dst}) (= $0 lastFilter) listOK)
   ghost refiltered : Bool := false
   at call(Refilter) set refiltered := true
-  exit [refilters-unless-the-source-cache-could-not-be-listed] (or refiltered (not listOK))
+  ghost listed : Bool := false
+  at call(List) set listed := true
+  exit [always-lists-the-source-and-refilters-unless-the-listing-failed] (and listed (or refiltered (not listOK)))
   at go() assert [opt:callbacks-refilter-serially-on-the-monitor-goroutine] false
 @*/
 /*@ func join.DaemonSetPodsWith$2
@@ -713,7 +723,9 @@ package join
   at call(Refilter) assert [refilters-its-own-clone-with-that-filter] (and (= $recv {dst}) (= $0 lastFilter) listOK)
   ghost refiltered : Bool := false
   at call(Refilter) set refiltered := true
-  exit [refilters-unless-the-source-cache-could-not-be-listed] (or refiltered (not listOK))
+  ghost listed : Bool := false
+  at call(List) set listed := true
+  exit [always-lists-the-source-and-refilters-unless-the-listing-failed] (and listed (or refiltered (not listOK)))
   at go() assert [opt:callbacks-refilter-serially-on-the-monitor-goroutine] false
 @*/
 /*@ func join.StatefulSetPodsWith$2
@@ -788,7 +800,9 @@ package join
   at call(Refilter) assert [refilters-its-own-clone-with-that-filter] (and (= $recv {dst}) (= $0 lastFilter) listOK)
   ghost refiltered : Bool := false
   at call(Refilter) set refiltered := true
-  exit [refilters-unless-the-source-cache-could-not-be-listed] (or refiltered (not listOK))
+  ghost listed : Bool := false
+  at call(List) set listed := true
+  exit [always-lists-the-source-and-refilters-unless-the-listing-failed] (and listed (or refiltered (not listOK)))
   at go() assert [opt:callbacks-refilter-serially-on-the-monitor-goroutine] false
 @*/
 /*@ func join.JobPodsWith$2
@@ -863,7 +877,9 @@ package join
   at call(Refilter) assert [refilters-its-own-clone-with-that-filter] (and (= $recv {dst}) (= $0 lastFilter) listOK)
   ghost refiltered : Bool := false
   at call(Refilter) set refiltered := true
-  exit [refilters-unless-the-source-cache-could-not-be-listed] (or refiltered (not listOK))
+  ghost listed : Bool := false
+  at call(List) set listed := true
+  exit [always-lists-the-source-and-refilters-unless-the-listing-failed] (and listed (or refiltered (not listOK)))
   at go() assert [opt:callbacks-refilter-serially-on-the-monitor-goroutine] false
 @*/
 /*@ func join.IngressServicesWith$2
